@@ -49,7 +49,7 @@ class C06(BaseCheck):
                  'per-member load is within 1e-6 of a band edge for a relevant size are skipped and counted',
                  'bounded progress is judged only in phases with all members healthy, no membership change and '
                  'no jitter; eventual convergence is restated as: reached within 2/3 of a >= 60 s phase')
-  QUICK_CASES = 160
+  QUICK_CASES = 480
   THOROUGH_CASES = 5000
   QUICK_WALL = 50
   THOROUGH_WALL = 420
